@@ -147,6 +147,20 @@ exe = executable('prog', files=['main.c'], libs=[a])
 install(exe)
 """, {'a.c': 'int h(void); int a_fn(void) { return h(); }\n', 'main.c': 'int a_fn(void); int main(void) { return a_fn(); }\n'},
                        [], {'prebuilt/libpre.so': 'int h(void) { return 0; }\n'}, ['liba.so', 'libpre.so'], ['prog']),
+    # a versioned library: the program is installed alone; what the loader looks up (the soname) and the real file come along
+    'versioned-dependency': ("""
+foo = shared_library('foo', files=['foo.c'], version='1.2.3', soversion='1')
+exe = executable('prog', files=['main.c'], libs=[foo])
+install(exe)
+""", {'foo.c': 'int foo(void) { return 0; }\n', 'main.c': 'int foo(void); int main(void) { return foo(); }\n'},
+                             [], {}, ['libfoo.so.1', 'libfoo.so.1.2.3'], ['prog']),
+    # a search directory the script asks for explicitly (valid before and after installation) survives the rewrite
+    'explicit-search-directory': ("""
+foo = shared_library('foo', files=['foo.c'])
+exe = executable('prog', files=['main.c'], libs=[foo], link_options=[opts.rpath_dir(Path('/opt/vendor lib', Root.absolute))])
+install(exe)
+""", {'foo.c': 'int foo(void) { return 0; }\n', 'main.c': 'int foo(void); int main(void) { return foo(); }\n'},
+                                  [], {}, ['libfoo.so'], ['prog'], {'prog': ['/opt/vendor lib']}),
 }
 
 
@@ -179,7 +193,8 @@ class InstallRun(Bounded):
         libraries, expected installed base names under libdir / bindir)."""
         import shutil, subprocess, tempfile
         from pyvc.interp import REPO
-        body, sources, opts, prebuilt, want_lib, want_bin = PROJECTS[raw['project']]
+        body, sources, opts, prebuilt, want_lib, want_bin = PROJECTS[raw['project']][:6]
+        asked = PROJECTS[raw['project']][6] if len(PROJECTS[raw['project']]) > 6 else {}
         top = tempfile.mkdtemp(prefix='pyvc_inst_')
         try:
             src, b, prefix = top + '/src', top + '/b', top + '/pre'
@@ -223,9 +238,11 @@ class InstallRun(Bounded):
                     continue
                 rp = run(['patchelf', '--print-rpath', p_])
                 entries = [e for e in rp.stdout.strip().split(':') if e]
-                if rp.returncode == 0 and any(e not in libdirs for e in entries):
+                extra_ok = asked.get(_os.path.basename(p_), [])
+                if rp.returncode == 0 and (any(e not in libdirs and e not in extra_ok for e in entries) or
+                                           any(e not in entries for e in extra_ok)):
                     return self.fail(case, raw, 'installed_search_paths_name_the_installed_library_directories',
-                                     file=p_[len(prefix):], rpath=rp.stdout.strip(), allowed=sorted(libdirs))
+                                     file=p_[len(prefix):], rpath=rp.stdout.strip(), allowed=sorted(libdirs), asked_for=extra_ok)
             shutil.rmtree(b)
             for lib in prebuilt:
                 _os.remove(src + '/' + lib)
